@@ -212,7 +212,10 @@ class DatasetSpec(object):
                 f.write(data)
         raw_dtype = np.dtype(self.raw.dtype if self.raw is not None else np.int16)
         with open(d / 'params.py', 'w') as f:
-            if len(dat_paths) == 1 and self.notes.get('dat_path_str'):
+            if self.notes.get('dat_path_literal') is not None and not dat_paths:
+                # the sorter's raw file name as written into every folder (the file itself need not be there)
+                f.write('dat_path = %r\n' % (self.notes['dat_path_literal'],))
+            elif len(dat_paths) == 1 and self.notes.get('dat_path_str'):
                 f.write('dat_path = %r\n' % dat_paths[0])
             else:
                 f.write('dat_path = %r\n' % dat_paths)
